@@ -668,7 +668,7 @@ func randOp(r *rand.Rand, client, seq int, raw bool) string {
 	case 2:
 		return "n:" + a
 	}
-	flags := []int{0, 1, 2, 64, 65, 66, 512, 513, 514, 577, 578, 1025, 1026, 1089, 194, 193, 1538, 3}
+	flags := []int{0, 1, 2, 64, 65, 66, 512, 513, 514, 577, 578, 1025, 1026, 1089, 194, 193, 1538}
 	return "o" + strconv.Itoa(flags[r.Intn(len(flags))]) + ":" + a
 }
 
@@ -828,6 +828,13 @@ func genTransformFaults(bin, scratch string, tier string) ([]request, error) {
 // alone and against a concurrent writer.
 func genFlags() []request {
 	var out []request
+	// access mode 3 (neither readable nor writable): flock(2) refuses the descriptor, OpenFile fails
+	for _, fl := range []int{3, 3 | os.O_CREATE, 3 | os.O_TRUNC} {
+		for _, ini := range []string{"", " init:" + blob(9, 1, 9)} {
+			out = append(out, request{fmt.Sprintf("run @ o%d:r3 1%s", fl, ini), "flags-solo"})
+			out = append(out, request{fmt.Sprintf("run @ o%d:r3|w%s|r 91%s", fl, blob(2, 0, 5), ini), "flags-concurrent"})
+		}
+	}
 	for acc := 0; acc < 3; acc++ {
 		for sub := 0; sub < 16; sub++ {
 			flag := acc
